@@ -134,7 +134,7 @@ pub trait Subject {
     fn push(&mut self, _how: How, _id: u32) -> Result<(), u32> {
         panic!("subject does not take pushes")
     }
-    /// `Extend::extend` with an exact-size batch (ordered collections); false = not supported
+    /// `Extend::extend` with a batch that fits (ordered collections); false = not supported
     fn extend(&mut self, _ids: &[u32]) -> bool {
         false
     }
@@ -262,8 +262,18 @@ impl Subject for SFob {
     }
     fn extend(&mut self, ids: &[u32]) -> bool {
         let v: Vec<Child> = ids.iter().map(|i| Child::new(*i)).collect();
+        // half of the batches come from an iterator whose size hint says (0, Some(n))
+        let inexact = match w().extend_mode.get() {
+            1 => false,
+            2 => true,
+            _ => w().rng.borrow_mut().chance(1, 2),
+        };
         let _g = enter_crate();
-        self.0.extend(v);
+        if inexact {
+            self.0.extend(v.into_iter().filter(|_| true));
+        } else {
+            self.0.extend(v);
+        }
         true
     }
     fn obs(&self) -> Obs {
@@ -296,8 +306,18 @@ impl Subject for SFo {
     }
     fn extend(&mut self, ids: &[u32]) -> bool {
         let v: Vec<Child> = ids.iter().map(|i| Child::new(*i)).collect();
+        // half of the batches come from an iterator whose size hint says (0, Some(n))
+        let inexact = match w().extend_mode.get() {
+            1 => false,
+            2 => true,
+            _ => w().rng.borrow_mut().chance(1, 2),
+        };
         let _g = enter_crate();
-        self.0.extend(v);
+        if inexact {
+            self.0.extend(v.into_iter().filter(|_| true));
+        } else {
+            self.0.extend(v);
+        }
         true
     }
     fn obs(&self) -> Obs {
@@ -526,16 +546,41 @@ pub fn make(kind: Kind, ctor: Ctor, cap: usize, ids: &[u32], start: Option<usize
     // from_iter / join_all are sometimes fed an iterator whose size_hint lower bound is below its
     // real length (a `filter`), as user code does
     let inexact = w.rng.borrow_mut().chance(1, 3);
+    /// an input iterator that panics instead of yielding its `at`-th item (user code may)
+    struct PanicAt<I> {
+        inner: I,
+        i: usize,
+        at: usize,
+    }
+    impl<I: Iterator> Iterator for PanicAt<I> {
+        type Item = I::Item;
+        fn next(&mut self) -> Option<I::Item> {
+            if self.i == self.at {
+                self.i += 1;
+                let _g = crate::alloc::leave_crate();
+                crate::world::w().panic_mode.set(true);
+                panic!("scripted panic in the input iterator");
+            }
+            self.i += 1;
+            self.inner.next()
+        }
+        fn size_hint(&self) -> (usize, Option<usize>) {
+            self.inner.size_hint()
+        }
+    }
+    let it_panic_at = w.iter_panic_at.take();
     fn it<T>(v: Vec<T>, inexact: bool) -> Box<dyn Iterator<Item = T>>
     where
         T: 'static,
     {
-        if inexact {
-            Box::new(v.into_iter().filter(|_| true))
-        } else {
-            Box::new(v.into_iter())
+        let at = crate::world::w().iter_panic_now.take();
+        let b: Box<dyn Iterator<Item = T>> = if inexact { Box::new(v.into_iter().filter(|_| true)) } else { Box::new(v.into_iter()) };
+        match at {
+            Some(at) => Box::new(PanicAt { inner: b, i: 0, at }),
+            None => b,
         }
     }
+    w.iter_panic_now.set(it_panic_at);
     match kind {
         Kind::Fub => match ctor {
             Ctor::FromIter => {
